@@ -3,7 +3,9 @@
    Codes: 0  same nets, same leaf devices, and the two packages are syntactically identical
           7  same nets and leaf devices, packages differ in something the property does not fix
              (order or names of invented objects) - information, not a failure
-          2  the model and the implementation disagree on nets / leaf devices / acceptance (tie broken)
+          1  the implementation's package does not have the nets / leaf devices of the written design (the model's has)
+          6  the implementation rejected a valid design (the model accepted it)
+          2  the property holds on the implementation's package but the model rejected the design (tie broken)
           4  the model's own package is not well-formed or does not have the nets of the design
              (would contradict C06E_export_wf / C01E_end_to_end: a defect of the checker)
           3  harness inconsistency (invalid design or terminal lists, or a design outside the hypotheses of the
@@ -101,17 +103,24 @@ Definition chk_c01e (c : c01e_case) : Z :=
   | Some sv =>
       if negb (frag_ok d && xinfo_ok (ce_xinfo c) d) then 3 else
       match elab_export_model (ce_xinfo c) d with
-      | Error _ => match cc_pkg cc with None => 2 | Some _ => 2 end     (* the model rejects no valid design *)
+      | Error _ =>
+          match cc_pkg cc with
+          | None => 6
+          | Some pi => match pkg_view pi (cc_top cc) (cc_pterms cc) with
+                       | Some iv => if view_eqb iv sv then 2 else 1
+                       | None => 1
+                       end
+          end
       | Ok pm =>
           match wf_pkg prims_ext pm, pkg_view pm (cc_top cc) (cc_pterms cc) with
           | Ok _, Some mv =>
               if negb (view_eqb mv sv) then 4 else
               match cc_pkg cc with
-              | None => 2
+              | None => 6
               | Some pi =>
                   match pkg_view pi (cc_top cc) (cc_pterms cc) with
-                  | None => 2
-                  | Some iv => if negb (view_eqb iv mv) then 2 else if pkg_eqb pm pi then 0 else 7
+                  | None => 1
+                  | Some iv => if negb (view_eqb iv mv) then 1 else if pkg_eqb pm pi then 0 else 7
                   end
               end
           | _, _ => 4
